@@ -93,6 +93,25 @@ def checkPerm (kvs okv : List (String × String)) : String := Id.run do
     let e2 := (o.newLast.1).newLast.1
     if s!"{n},{n+1},{showPair e2}" != (lookup okv "ext").getD "" then return "FAIL MODEL extension of a permutation"
   | _ => return "FAIL PARSE ext"
+  -- accessor API against the positions
+  let pos (v : Nat) : Nat := order.idxOf v
+  let lte := String.ofList ((List.range n).flatMap fun a => (List.range n).map fun b => if pos a ≤ pos b then '1' else '0')
+  if lookup okv "lte" != some lte then return "FAIL SPEC lte does not agree with the positions"
+  let optS (o : Option Nat) : String := match o with | some v => toString v | none => "-"
+  let above := ".".intercalate ((List.range n).map fun v => optS (if pos v == 0 then none else order[pos v - 1]?))
+  let below := ".".intercalate ((List.range n).map fun v => optS (order[pos v + 1]?))
+  if lookup okv "above" != some above then return s!"FAIL SPEC above = {lookup okv "above"}, by the positions {above}"
+  if lookup okv "below" != some below then return s!"FAIL SPEC below = {lookup okv "below"}, by the positions {below}"
+  if lookup okv "last" != (order.getLast?.map toString) then return s!"FAIL SPEC last_var = {lookup okv "last"}"
+  if lookup okv "fwd" != some (showNats "." order) then return "FAIL SPEC in_order_iter does not list the order"
+  if lookup okv "rev" != some (showNats "." order.reverse) then return "FAIL SPEC reverse_in_order_iter does not list the reversed order"
+  match ((lookup okv "btw").getD "").splitOn ":" with
+  | [lo, hi, vs] =>
+    let (lo, hi) := (lo.toNat?.getD 0, hi.toNat?.getD 0)
+    let want := showNats "." ((order.drop lo).take (hi - lo)).reverse
+    if vs != want then return s!"FAIL SPEC between_iter({lo},{hi}) yields {vs}, the levels [{lo},{hi}) in reverse are {want}"
+  | _ => return "FAIL PARSE btw"
+  if lookup okv "disp" != some s!"[{showNats "," order}]" then return s!"FAIL SPEC Display prints {lookup okv "disp"}"
   return s!"ok nontrivial={if order != List.range n then 1 else 0}"
 
 /-! ### dtrees -/
